@@ -7,7 +7,9 @@ pub mod c02;
 pub mod c08;
 pub mod c09;
 pub mod c15;
+pub mod c16;
 pub mod c17;
+pub mod c18;
 pub mod c20;
 pub mod common;
 
@@ -19,7 +21,9 @@ pub const TABLE: &[(&str, RunFn, ReplayFn)] = &[
     ("C08", c08::run, c08::replay),
     ("C09", c09::run, c09::replay),
     ("C15", c15::run, c15::replay),
+    ("C16", c16::run, c16::replay),
     ("C17", c17::run, c17::replay),
+    ("C18", c18::run, c18::replay),
     ("C20", c20::run, c20::replay),
 ];
 
